@@ -594,4 +594,48 @@ compared with the first) — the reason `TableWF` asks for distinct index names.
 example : tableDiff { name := 1, cols := [], idxs := [⟨none, false, false, [⟨1, false, 0⟩], 0⟩, ⟨none, false, true, [⟨2, false, 0⟩], 0⟩] }
     { name := 1, cols := [], idxs := [⟨none, false, false, [⟨1, false, 0⟩], 0⟩, ⟨none, false, true, [⟨2, false, 0⟩], 0⟩] } ≠ [] := by decide
 
+/-! ### the two directions mirror each other -/
+
+/-- **add_drop_mirror**: a table is reported as added in one direction exactly when it is reported as
+dropped in the other (any two schemas with distinct table names). -/
+theorem add_drop_mirror (s s' : List Table) (hs : (s.map Table.name).Nodup) (hs' : (s'.map Table.name).Nodup) (n : Nat) :
+    Change.addTable n ∈ schemaDiff s s' ↔ Change.dropTable n ∈ schemaDiff s' s := by
+  rw [diff_characterisation s s' hs', diff_characterisation s' s hs]
+  constructor
+  · rintro (⟨t, _, _, h⟩ | ⟨t, _, t', _, _, _, h⟩ | ⟨t', ht', hn, h⟩)
+    · cases h
+    · cases h
+    · cases h; exact Or.inl ⟨t', ht', hn, rfl⟩
+  · rintro (⟨t, ht, hn, h⟩ | ⟨t, _, t', _, _, _, h⟩ | ⟨t', _, _, h⟩)
+    · cases h; exact Or.inr (Or.inr ⟨t, ht, hn, rfl⟩)
+    · cases h
+    · cases h
+
+/-- a table is reported as modified in one direction exactly when it is in the other, provided the table
+comparison itself is symmetric in emptiness for the pair. -/
+theorem modify_mirror (s s' : List Table) (hs : (s.map Table.name).Nodup) (hs' : (s'.map Table.name).Nodup) (n : Nat)
+    (hsym : ∀ t ∈ s, ∀ t' ∈ s', t'.name = t.name → (tableDiff t t' = [] ↔ tableDiff t' t = [])) :
+    (∃ cs, Change.modifyTable n cs ∈ schemaDiff s s') ↔ (∃ cs, Change.modifyTable n cs ∈ schemaDiff s' s) := by
+  constructor
+  · rintro ⟨cs, h⟩
+    rw [diff_characterisation s s' hs'] at h
+    rcases h with ⟨t, _, _, h⟩ | ⟨t, ht, t', ht', hn, hne, h⟩ | ⟨t', _, _, h⟩
+    · cases h
+    · cases h
+      refine ⟨tableDiff t' t, ?_⟩
+      rw [diff_characterisation s' s hs]
+      exact Or.inr (Or.inl ⟨t', ht', t, ht, hn.symm, fun he => hne ((hsym t ht t' ht' hn).mpr he), by rw [hn]⟩)
+    · cases h
+  · rintro ⟨cs, h⟩
+    rw [diff_characterisation s' s hs] at h
+    rcases h with ⟨t, _, _, h⟩ | ⟨t', ht', t, ht, hn, hne, h⟩ | ⟨t', _, _, h⟩
+    · cases h
+    · cases h
+      refine ⟨tableDiff t t', ?_⟩
+      rw [diff_characterisation s s' hs']
+      exact Or.inr (Or.inl ⟨t, ht, t', ht', hn.symm, fun he => hne ((hsym t ht t' ht' hn.symm).mp he), by rw [hn]⟩)
+    · cases h
+
+example : Change.addTable 2 ∈ schemaDiff [tA] [tA, tB] ∧ Change.dropTable 2 ∈ schemaDiff [tA, tB] [tA] := by decide
+
 end Props.C02
